@@ -82,6 +82,15 @@ def selections(out, thorough):
         for sub in itertools.combinations(groups, r):
             yield ("groups-off", list(sub))
     desc = descriptors(out)
+    # the same subsets given as other kinds of iterables than a list
+    for form in FORMS:
+        if form != "ndarray":  # a group list is tested for truth by load(): an ndarray of names is not a supported spelling
+            yield ("groups-list@" + form, ["part", "sink"])
+            yield ("groups-list@" + form, ["mesh"])
+        for dname, names in desc.items():
+            if len(names) >= 2:
+                yield (f"vars:{dname}@{form}", [names[0], names[-1]])
+            yield (f"vars:{dname}@{form}", list(names))
     for dname, names in desc.items():
         n = len(names)
         cap = 12 if thorough else 9
@@ -118,14 +127,34 @@ def _few_subsets(names):
     return res
 
 
+FORMS = ("tuple", "set", "frozenset", "keys", "ndarray")
+
+
+def as_form(names, form):
+    """the same collection of names as another kind of iterable"""
+    names = list(names)
+    if form == "tuple":
+        return tuple(names)
+    if form == "set":
+        return set(names)
+    if form == "frozenset":
+        return frozenset(names)
+    if form == "keys":
+        return {n: None for n in names}.keys()
+    if form == "ndarray":
+        return np.array(names) if names else np.array([], dtype=str)
+    return names
+
+
 def to_select(kind, arg):
+    kind, _, form = kind.partition("@")
     if kind == "groups-list":
-        return list(arg)
+        return as_form(arg, form)
     if kind == "groups-off":
         return {g: False for g in arg}
     if kind.startswith("vars:part"):
-        return {"part": list(arg)}
-    return {"mesh": list(arg)}
+        return {"part": as_form(arg, form)}
+    return {"mesh": as_form(arg, form)}
 
 
 def snapshot(ds):
@@ -257,7 +286,7 @@ def run_case(label, kind, arg, keep_dir=None):
             return [("load-raised:" + type(e).__name__, {"trace": traceback.format_exc()[-500:]})]
     got = snapshot(ds)
     try:
-        exp, focus = expected_from_full(out, full, kind, arg)
+        exp, focus = expected_from_full(out, full, kind.partition("@")[0], arg)
     except KeyError as e:
         # the full load (made earlier in this process) does not hold a variable that is stored in the files
         return [("full-load-lacks-stored-variable", {"variable": str(e), "full_groups": {g: sorted(v) for g, v in full.items()}})]
